@@ -32,7 +32,9 @@ TReset == /\ IsEvent("Reset")
              /\ inited' = t.inited /\ supported' = SupportedActions(t.coder)
              /\ seq' = "RUN" /\ savedIn' = 0 /\ allowBuf' = FALSE /\ totalIn' = 0 /\ totalOut' = 0
              /\ obs' = NoObs
-TReinit == IsEvent("Reinit") /\ Reinit(SupportedActions(TraceLog[l].coder))
+\* (fresh_eq: lzma_memusage / lzma_memlimit_get / lzma_memlimit_set / lzma_get_progress answer on the
+\* re-initialised handle exactly what they answer on a fresh handle given to the same constructor)
+TReinit == IsEvent("Reinit") /\ TraceLog[l].fresh_eq /\ Reinit(SupportedActions(TraceLog[l].coder))
 
 TCall == /\ IsEvent("Call")
          /\ LET t == TraceLog[l] IN
